@@ -149,6 +149,13 @@ def run_len_equals_return(chk, F, rule="L3.len_eq_return"):
             if not any(c == s for c in cand):
                 ok = False
                 probs.append("writer path %s returns %s; len function offers %s" % (sorted(g)[:2], fmtsig(s), [fmtsig(c) for c in cand][:3] or [fmtsig(x) for x in lsig.values()][:3]))
+        if not ok:
+            # the two are not written as the same expression: that is a violation only if their values differ somewhere
+            import rules_ivl
+            okv, text = rules_ivl.len_eq_all_params(F, "default", code)
+            if okv:
+                chk.ok(rule, code, sample={"code": code, "shape": "expressions differ", "decided_by": text})
+                continue
         chk.expect(rule, code, ok, "code %s: the length function %s and the value returned by the writer differ as symbolic expressions: %s" % (code, lpath, "; ".join(probs)[:600]),
                    detail={"code": code, "problems": probs[:3]}, sample={"code": code, "writer_paths": len(wsig), "len_paths": len(lsig)})
 
